@@ -2033,7 +2033,7 @@ class HttpHeaderFieldUnparsed(FieldParsableBase, Serializable):
     @classmethod
     def _parse(cls, parsable):
         parser = cls._parse_name(parsable)
-        parser.parse_separator(cls.get_separator())
+        parser.parse_string('separator', cls.get_separator())
         parser.parse_separator(' \t', min_length=0, max_length=None)
         parser.parse_string_until_separator('value', '\r\n')
 
